@@ -21,19 +21,22 @@ Definition is_string_piece (p : spiece P) : bool :=
 Definition is_noncode_piece (p : spiece P) : bool :=
   match fst p with None => true | Some _ => false end.
 
-(*      for idx, statement in enumerate(statements):
-            if not statement.is_comment_or_blank_or_string_literal:  ... break
-    index of the first statement that is not prologue; None = the for-else branch.
-    `first_string_only` = the tree has the F9 repair (only the first string literal statement
-    counts as prologue; `seen` = seen_docstring); false = every string literal statement does. *)
-Fixpoint first_code_index (first_string_only : bool) (seen : bool) (sts : list (spiece P)) : option nat :=
+(*      seen_docstring = False
+        for idx, statement in enumerate(statements):
+            is_prologue = statement.is_comment_or_blank_or_string_literal
+            if is_prologue and not statement.is_comment_or_blank:
+                if seen_docstring: is_prologue = False        # only the first string literal is the docstring (F9)
+                seen_docstring = True
+            if not is_prologue:  ... break
+    index of the first statement that is not prologue; None = the for-else branch.   *)
+Fixpoint first_code_index (seen : bool) (sts : list (spiece P)) : option nat :=
   match sts with
   | [] => None
   | s :: rest =>
-      if is_noncode_piece s then option_map S (first_code_index first_string_only seen rest)
+      if is_noncode_piece s then option_map S (first_code_index seen rest)
       else if is_string_piece s then
-        if first_string_only && seen then Some 0
-        else option_map S (first_code_index first_string_only true rest)
+        if seen then Some 0
+        else option_map S (first_code_index true rest)
       else Some 0
   end.
 
@@ -49,15 +52,28 @@ Definition other_of (sts : list (spiece P)) : option block :=
             self.blocks[0:0] = blocks;  return
         statements = self.blocks[0].input.statements          # the first block is split again
         for idx, statement in enumerate(statements):
-            if not statement.is_comment_or_blank_or_string_literal:
+            ...
+            if not is_prologue:
                 if idx == 0: self.blocks[0:0] = blocks
                 else: self.blocks[:1] = [SourceToSourceTransformation(PythonBlock.concatenate(statements[:idx]))]
                                         + blocks
                                         + [SourceToSourceTransformation(PythonBlock.concatenate(statements[idx:]))]
                 break
         else:
-            self.blocks[1:1] = blocks                                                      *)
-Definition insert_new_blocks_after_comments (first_string_only : bool) (news : list block) (bs : list block)
+            text = self.blocks[0].input.text.joined
+            if text and not text.endswith("\n"):
+                # terminate the unterminated last prologue line (commit 12227eb; was finding F39)
+                blocks = [SourceToSourceTransformation("")] + blocks
+            self.blocks[1:1] = blocks
+    SourceToSourceTransformation("") has input PythonBlock("\n") (a str argument gets a final
+    newline) and prints its input: the text "\n".                                          *)
+Definition empty_input : pblock P := mkPB (of_str [c_nl] (mkPos 1 1)) [].
+Definition newline_block : block := BOther empty_input [c_nl].
+
+Definition needs_terminator (text : str) : bool :=
+  match text with [] => false | _ => negb (ends_with_nl text) end.
+
+Definition insert_new_blocks_after_comments (news : list block) (bs : list block)
   : option (list block) :=
   match bs with
   | [] => None                                              (* self.blocks[0]: IndexError *)
@@ -66,8 +82,10 @@ Definition insert_new_blocks_after_comments (first_string_only : bool) (news : l
       match statements (pb_nodes inp) (pb_text inp) with
       | None => None
       | Some sts =>
-          match first_code_index first_string_only false sts with
-          | None => Some (BOther inp out :: news ++ rest)
+          match first_code_index false sts with
+          | None =>
+              let news' := if needs_terminator (btext inp) then newline_block :: news else news in
+              Some (BOther inp out :: news' ++ rest)
           | Some O => Some (news ++ bs)
           | Some idx =>
               match other_of (firstn idx sts), other_of (skipn idx sts) with
@@ -85,12 +103,11 @@ Definition insert_new_blocks_after_comments (first_string_only : bool) (news : l
         self.insert_new_blocks_after_comments([block, sepblock])
         self.import_blocks.insert(0, block)
     (a str argument that does not end with a newline gets one: both inputs are PythonBlock("\n"))  *)
-Definition empty_input : pblock P := mkPB (of_str [c_nl] (mkPos 1 1)) [].
 Definition new_import_block : block := BImports empty_input empty_set.
 Definition sep_block : block := BOther empty_input [c_nl].
 
-Definition insert_new_import_block (first_string_only : bool) (bs : list block) : option (list block) :=
-  insert_new_blocks_after_comments first_string_only [new_import_block; sep_block] bs.
+Definition insert_new_import_block (bs : list block) : option (list block) :=
+  insert_new_blocks_after_comments [new_import_block; sep_block] bs.
 
 End Insert.
 
@@ -100,6 +117,7 @@ Arguments first_code_index {P}.
 Arguments other_of {P iset}.
 Arguments insert_new_blocks_after_comments {P iset}.
 Arguments empty_input {P}.
+Arguments newline_block {P iset}.
 Arguments new_import_block {P iset}.
 Arguments sep_block {P iset}.
 Arguments insert_new_import_block {P iset}.
